@@ -72,7 +72,11 @@ func init() {
 		}
 		return mkProfile(all)
 	}
-	profiles["C12"] = only(map[string]int{"parcmp": 40, "pooldecode": 12, "agg": 6, "agg64": 4, "addmany": 12, "addrange": 8, "runopt": 4, "removerange": 3, "flip": 3, "clone": 3, "setcow": 3, "addmany64": 6, "addrange64": 4, "binop": 3, "pair": 3, "gc": 1, "cowclone": 6, "add": 3, "remove": 2, "parlist": 8})
+	profiles["C12"] = only(map[string]int{"parcmp": 40, "pooldecode": 12, "agg": 6, "agg64": 4, "addmany": 12, "addrange": 8, "runopt": 4, "removerange": 3, "flip": 3, "clone": 3, "setcow": 3, "addmany64": 6, "addrange64": 4, "binop": 3, "pair": 3, "gc": 1, "cowclone": 6, "add": 3, "remove": 2, "parlist": 8,
+		// the goroutine-parallel paths of both BSI implementations (races, deadlocks, leaks and panics in
+		// their goroutines are C12's; wrong answers are C19/C20's and counted as foreign here)
+		"bsinew64": 2, "bsifill64": 6, "bsiset64": 3, "bsiclear64": 3, "bsiparor64": 3, "bsicopy64": 3, "bsicmp64": 6, "bsibatch64": 3, "bsiminmax64": 3, "bsisum64": 3, "bsitrans64": 3,
+		"bsinew32": 2, "bsifill32": 6, "bsiset32": 3, "bsiclear32": 3, "bsiparor32": 3, "bsicopy32": 3, "bsicmp32": 6, "bsibatch32": 3, "bsiminmax32": 3, "bsisum32": 3, "bsitrans32": 3})
 	profiles["C17"] = only(map[string]int{"add64": 10, "remove64": 9, "addmany64": 10, "addrange64": 10, "removerange64": 10, "flip64": 8, "maint64": 8, "binop64": 16, "flipstatic64": 6, "agg64": 6, "query64": 8, "from32": 1, "addmany": 1, "gc": 1})
 	profiles["C18"] = only(map[string]int{"add64": 6, "remove64": 4, "addmany64": 10, "addrange64": 8, "removerange64": 6, "flip64": 4, "maint64": 6, "binop64": 6, "rt64": 25, "trunc64": 6, "corrupt64": 20})
 	profiles["C19"] = only(map[string]int{"bsinew64": 4, "bsiset64": 14, "bsifill64": 12, "bsisetmany64": 8, "bsiclear64": 6, "bsiretain64": 4, "bsiparor64": 8, "bsiinc64": 6, "bsiadd64": 6, "bsicopy64": 14, "bsiopt64": 2,
@@ -85,7 +89,8 @@ func init() {
 	profiles["C05"] = with(map[string]int{"rt": 30, "wfault": 8, "runopt": 8, "agg": 1, "unmap": 2})
 	profiles["C10"] = with(map[string]int{"trunc": 10, "corrupt": 45, "rfault": 4, "mustread": 5, "rt": 3, "runopt": 8, "unmap": 1})
 	profiles["C13"] = with(map[string]int{"freeze": 30, "runopt": 8, "unmap": 3, "gc": 6})
-	profiles["C08"] = with(map[string]int{"rt": 14, "freeze": 10, "unmap": 8, "detach": 6, "gc": 5, "dense": 3, "clone": 8, "binop": 10, "ibinop": 10, "agg": 5, "setcow": 1})
+	profiles["C08"] = with(map[string]int{"rt": 14, "freeze": 10, "unmap": 8, "detach": 6, "gc": 5, "dense": 3, "clone": 8, "binop": 10, "ibinop": 10, "agg": 5, "setcow": 1,
+		"rt64": 4, "addmany64": 3, "add64": 3, "remove64": 2, "addrange64": 2, "removerange64": 2, "flip64": 1, "binop64": 4, "maint64": 2})
 	profiles["C01"] = with(map[string]int{"binop": 20, "ibinop": 20, "card": 8, "runopt": 6, "pair": 16})
 	profiles["C02"] = with(map[string]int{"add": 12, "remove": 10, "addmany": 14, "addrange": 14, "removerange": 12, "flip": 10, "binop": 2, "ibinop": 2, "agg": 1, "thresh": 10, "clone": 6, "setcow": 5})
 	profiles["C07"] = with(map[string]int{"parlist": 3, "cowclone": 8, "clone": 8, "setcow": 8, "binop": 10, "ibinop": 10, "agg": 10, "flipstatic": 4, "addoffset": 4, "andany": 3})
